@@ -156,6 +156,7 @@ void ledger_reset();
 size_t ledger_live();
 std::vector<LeakInfo> ledger_dump();
 size_t ledger_mark();			// serial number watermark
+size_t ledger_forgive_yaml(long op);
 std::string symbolize_pc(void *pc);
 void seams_init();
 
